@@ -32,6 +32,7 @@ func buildDriver(c *core.Ctx) (string, error) {
 	err := c.BuildInRepo("internal/verifx/rpc", map[string]string{
 		"internal/verifx/rpc/main.go":   core.DriverSrc("rpc/main.go"),
 		"internal/verifx/rpc/extras.go": core.DriverSrc("rpc/extras.go"),
+		"internal/verifx/rpc/race.go":   core.DriverSrc("rpc/race.go"),
 	}, out, true, false)
 	return out, err
 }
